@@ -262,6 +262,11 @@ func createParentMailboxesPerUser(db mailboxExecer, userID int64, name string) e
 	parts := strings.Split(name, "/")
 	for i := 0; i < len(parts)-1; i++ {
 		parentPath := strings.Join(parts[:i+1], "/")
+		if parentPath == "" {
+			// a name that starts with "/" has no mailbox above its first level
+			// (CREATE accepts such names as well)
+			continue
+		}
 		exists, err := MailboxExistsPerUser(db, userID, parentPath)
 		if err != nil {
 			return err
